@@ -16,7 +16,7 @@
 From Coq Require Import NArith List Bool Lia.
 From KdV Require Import Fmt.Codec Fmt.CodecProofs Fmt.Rle Fmt.RleProofs
      Fmt.PfnModel Fmt.BitmapSpec Fmt.ImageSpec Fmt.DiskdumpModel Fmt.DiskdumpSpec Fmt.DiskdumpProofs
-     Fmt.S390Model Fmt.S390Spec Fmt.S390Proofs Fmt.LkcdModel Fmt.LkcdSpec Fmt.LkcdProofs Fmt.LkcdIndexModel Fmt.LkcdIndexProofs Fmt.ElfGeomModel Fmt.ElfGeomSpec Fmt.ElfGeomProofs Fmt.ElfGeomRoundtrip Fmt.ReadProofs
+     Fmt.S390Model Fmt.S390Spec Fmt.S390Proofs Fmt.LkcdModel Fmt.LkcdSpec Fmt.LkcdProofs Fmt.PfnBridge Fmt.LkcdIndexModel Fmt.LkcdIndexProofs Fmt.ElfGeomModel Fmt.ElfGeomSpec Fmt.ElfGeomProofs Fmt.ElfGeomRoundtrip Fmt.ReadProofs
      Fmt.ElfModel Fmt.ElfSpec Fmt.ElfProofs Fmt.ElfRoundtrip Fmt.ElfOpenProofs
      Fmt.SadumpModel Fmt.SadumpSpec Fmt.SadumpProofs Fmt.SadumpOpenProofs.
 Import ListNotations.
@@ -158,6 +158,22 @@ Theorem C01_diskdump_read_range : forall decompress l pages img,
                          ((addr + N.of_nat m) / dl_page_size l) = Err status)).
 Proof. exact diskdump_read_range. Qed.
 Print Assumptions C01_diskdump_read_range.
+
+(** The region lists of the diskdump and SADUMP readers come from the
+    word-level model of [pfn_regions_from_bitmap] and its scanners
+    ([skip_clear_lsb0/msb0], [skip_set_lsb0/msb0]: first partial byte, bytes up
+    to 4-byte alignment, aligned 32-bit words with le32toh / be32toh, trailing
+    bytes) of Pfn/BitmapModel.v - the model that C07 ties to pfn.c white-box
+    and proves to yield the maximal runs ([BitmapProofs.regions_are_runs]).
+    For every byte string, either bit numbering, every buffer alignment and
+    every window it produces exactly the list that the round-trip theorems
+    reason with (the walk over the bits, [PfnModel.regions_from_bitmap]):
+    [runs_from] determines the list, and the walk satisfies it. *)
+Theorem C01_regions_are_the_scanner : forall msb0 al bm s e off esz,
+  bytes_ok bm -> (e + 7) / 8 <= len bm ->
+  regions_of msb0 al bm s e off esz = Ok (PfnModel.regions_from_bitmap msb0 bm s e off esz).
+Proof. exact regions_of_spec. Qed.
+Print Assumptions C01_regions_are_the_scanner.
 
 (** the right-hand side above, spelled out *)
 Theorem C01_spec_read_page_meaning : forall img pgsz max_pfn z pfn,
